@@ -116,8 +116,10 @@ func dateLayoutLanguages(e *Env, rule string, extra ...string) *dateLayout {
 			return 1, true, true // non-empty input
 		case as == "*date.MaxInputLength" && bs == "0":
 			return 0, true, true // limit disabled: the guard is C18.L's business
-		case strings.HasPrefix(as, "len((*regexp.Regexp).FindSubmatch(") && bs == "0":
+		case (strings.HasPrefix(as, "len((*regexp.Regexp).FindSubmatch(") || strings.HasPrefix(as, "len((*regexp.Regexp).FindStringSubmatch(")) && bs == "0":
 			return 1, true, true // the pattern matched
+		case (strings.HasPrefix(as, "(*regexp.Regexp).FindSubmatch(") || strings.HasPrefix(as, "(*regexp.Regexp).FindStringSubmatch(")) && bs == "nil":
+			return 1, true, true // `parts == nil`: the same test
 		case strings.Contains(as, "#") && strings.Contains(bs, "strconv.Atoi"), strings.Contains(bs, "#") && strings.Contains(as, "strconv.Atoi"),
 			strings.Contains(as, "New(") && strings.Contains(bs, "strconv.Atoi"), strings.Contains(bs, "New(") && strings.Contains(as, "strconv.Atoi"):
 			return 0, true, true // calendar round-trip guard passes (decided by C09.valid)
